@@ -6,7 +6,7 @@ D="$1"; P="$2"; shift 2
 L=/tmp/try_seed_${P}_$$.log
 while [ -e /tmp/repo_mutated.lock ]; do sleep 1; done; touch /tmp/repo_mutated.lock
 git -C /repo apply "$D/patch.diff" || { echo "patch does not apply"; rm -f /tmp/repo_mutated.lock; exit 3; }
-cd /verif && TRY_SEED=1 ./check "$P" --no-evidence "$@" > $L 2>&1 &
+cd /verif && TRY_SEED=1 VERIF_REPLAYS_DIR=/tmp/seed_replays ./check "$P" --no-evidence "$@" > $L 2>&1 &
 pid=$!
 for i in $(seq 1 600); do grep -q "sources captured" $L 2>/dev/null && break; kill -0 $pid 2>/dev/null || break; sleep 0.5; done
 git -C /repo checkout -- .; rm -f /tmp/repo_mutated.lock
